@@ -313,6 +313,12 @@ def run(ctx):
             if n_model <= 2:
                 ctx.violation('model-differs-from-impl', f'{line(c)}: impl `{impl[:80]}` model `{model[:80]}`',
                               {'cases': [list(c[:5]) + [list(c[5]) if c[5] else None]], 'impl': impl, 'model': model, 'spec': spec}, no_failing_input=True)
+    if not quick and not ctx.replay:
+        # same prefix of cases with every decode level switched on (logging paths execute): identical lines
+        k = min(len(cases), 20000)
+        loud = ctx.harness('cenc', [line(c) for c in cases[:k]], args=['--decode', 'max'])
+        diff = [i for i in range(k) if loud[i] != results[i][0]]
+        ctx.oblige('decode-level-max-gives-identical-results', not diff, f'{len(diff)} of {k} lines differ, first: {line(cases[diff[0]]) if diff else ""}')
     ctx.oblige('correspondence:client-encode-vs-model', n_model == 0, f'{n_model} cases where the implementation differs from the model only')
     ctx.oblige('correspondence:client-encode-vs-spec', n_spec == 0, f'{n_spec} cases where the implementation differs from the Spec')
     ctx.oblige('tx-id-field-is-the-task-counter', tx_bad == 0, f'{tx_bad} frames whose MBAP transaction id is not the number of requests the task saw before')
